@@ -205,13 +205,20 @@ T_list ==
 T_opt ==
     [EmptyModel EXCEPT !.classes = <<Class("Something", <<>>, FALSE, <<Prop("count", IntT), Prop("text", OptOf(StrT))>>)>>]
 
-TemplateIds == {"single", "chain", "concrete_chain", "cprim", "list", "opt"}
+\* the parent is a marker class without properties that is declared AFTER its descendant (a meta-model is parsed,
+\* never executed: the front end sorts the classes itself, so the declaration order is free)
+T_late_parent ==
+    [EmptyModel EXCEPT !.classes = <<Class("Something", <<"Late_marker">>, FALSE, <<Prop("text", StrT), Prop("count", IntT)>>),
+                                     Class("Late_marker", <<>>, TRUE, <<>>)>>]
+
+TemplateIds == {"single", "chain", "concrete_chain", "cprim", "list", "opt", "late_parent"}
 Template(t) == CASE t = "single" -> T_single
                  [] t = "chain" -> T_chain
                  [] t = "concrete_chain" -> T_concrete_chain
                  [] t = "cprim" -> T_cprim
                  [] t = "list" -> T_list
                  [] t = "opt" -> T_opt
+                 [] t = "late_parent" -> T_late_parent
 \* where "text" gets inherited constraints from: <<kind, name>>
 Upper(t) == CASE t \in {"chain", "concrete_chain"} -> <<"class", "Parent">>
               [] t = "cprim" -> <<"cprim", "Name">>
@@ -288,10 +295,10 @@ LenFeatures == {
     "len_ge0", "len_eq0", "len_le0", "len_lt0", "len_gt0", "len_ge0_le5", "len_flip_ge0", "len_flip_eq0",
     "len_eq3_twice", "len_same_ge5_le3", "len_same_eq2_eq3", "len_big", "len_ne0",
     "len_inh_ge5_le3", "len_inh_eq0", "len_inh_ge0_le5", "len_inh_eq2_eq3", "len_inh_eq3_eq3",
-    "len_items_ge0", "len_items_eq0", "len_items_ge5_le3"}
+    "len_items_ge0", "len_items_eq0", "len_items_ge5_le3", "len_upper_same_ge5_le3", "len_upper_same_eq2_eq3"}
 
 \* --- patterns on "text" -----------------------------------------------------------------------
-PatFeatures == PatternIds \cup {"pat_two", "pat_inh_two", "pat_on_cprim", "pat_unused_fn", "pat_fstring"}
+PatFeatures == PatternIds \cup {"pat_two", "pat_inh_two", "pat_inh_three", "pat_on_cprim", "pat_unused_fn", "pat_fstring"}
 
 \* --- property types added to Something ---------------------------------------------------------
 TypeFeatures == {
@@ -312,13 +319,13 @@ StructFeatures == {
     "st_const_scalars", "st_const_set_str", "st_const_set_int", "st_const_set_enum", "st_const_set_superset", "st_const_set_empty",
     "st_const_str_odd", "st_in_const_set", "st_in_const_set_enum",
     "st_wmt_true", "st_wmt_false", "st_no_props", "st_only_opt_props", "st_diamond", "st_deep", "st_two_roots", "st_cprim_unused",
-    "st_cprim_chain_invs", "st_class_inv_on_inherited", "st_abstract_with_inv", "st_diamond_cprim", "st_diamond_documented"}
+    "st_cprim_chain_invs", "st_class_inv_on_inherited", "st_abstract_with_inv", "st_diamond_cprim", "st_diamond_documented", "st_child_before_parent", "st_transp_fn_len_no_args"}
 
 \* --- invariant expression shapes -----------------------------------------------------------------
 ExprFeatures == {
     "ex_implication", "ex_is_none", "ex_all_items", "ex_any_items", "ex_all_range", "ex_index", "ex_arith", "ex_str_cmp", "ex_nested_attr",
     "ex_enum_eq", "ex_bool_prop", "ex_chain_cmp", "ex_and_or_mix", "ex_fn_two_args", "ex_len_vs_count", "ex_not", "ex_float_cmp", "ex_str_const",
-    "ex_nested_all", "ex_int_big", "ex_neg_int", "ex_str_escapes"}
+    "ex_nested_all", "ex_int_big", "ex_neg_int", "ex_str_escapes", "ex_len_two_args_cprim"}
 
 \* --- identifiers that collide or are awkward in some target ---------------------------------------
 NameFeatures == {
@@ -335,9 +342,9 @@ SimpleFeatures == LenFeatures \cup PatFeatures \cup TypeFeatures \cup StructFeat
 DocFeaturePairsAll == {<<s, d>> : s \in DocFeatures, d \in DocIds}
 
 (* applicability -------------------------------------------------------------------------------- *)
-NeedsUpper(f) == f \in {"len_inh_ge5_le3", "len_inh_eq0", "len_inh_ge0_le5", "len_inh_eq2_eq3", "len_inh_eq3_eq3", "pat_inh_two"}
+NeedsUpper(f) == f \in {"len_upper_same_ge5_le3", "len_upper_same_eq2_eq3", "pat_inh_three", "len_inh_ge5_le3", "len_inh_eq0", "len_inh_ge0_le5", "len_inh_eq2_eq3", "len_inh_eq3_eq3", "pat_inh_two"}
 NeedsItems(f) == f \in {"len_items_ge0", "len_items_eq0", "len_items_ge5_le3", "ex_all_items", "ex_any_items", "ex_all_range", "ex_index", "ex_nested_all"}
-NeedsCPrim(f) == f \in {"pat_on_cprim", "st_cprim_chain_invs"}
+NeedsCPrim(f) == f \in {"pat_on_cprim", "st_cprim_chain_invs", "ex_len_two_args_cprim"}
 NeedsParent(f) == f \in {"st_wmt_true", "st_wmt_false", "st_class_inv_on_inherited", "st_abstract_with_inv", "doc_on_abstract"}
 NeedsPlainText(f) == f \in {"ex_str_cmp", "ex_str_const", "ex_str_escapes", "ex_and_or_mix"}
 
@@ -394,6 +401,13 @@ ApplyLen(f, t, m) ==
             LET U(on) == LenC(on, "eq", "2", "Upper exactly 2") IN LenOnText(AddUpperInv(m, t, U), "eq", "3", "Text exactly 3")
       [] f = "len_inh_eq3_eq3" ->
             LET U(on) == LenC(on, "eq", "3", "Upper exactly 3") IN LenOnText(AddUpperInv(m, t, U), "eq", "3", "Text exactly 3")
+      \* the *upper* declaration (a parent with a descendant, or the constrained primitive) contradicts itself
+      [] f = "len_upper_same_ge5_le3" ->
+            LET U1(on) == LenC(on, "ge", "5", "Upper at least 5")
+                U2(on) == LenC(on, "le", "3", "Upper at most 3") IN AddUpperInv(AddUpperInv(m, t, U1), t, U2)
+      [] f = "len_upper_same_eq2_eq3" ->
+            LET U1(on) == LenC(on, "eq", "2", "Upper exactly 2")
+                U2(on) == LenC(on, "eq", "3", "Upper exactly 3") IN AddUpperInv(AddUpperInv(m, t, U1), t, U2)
       [] f = "len_items_ge0" -> AddInv(m, S, LenC("items", "ge", "0", FreshDesc(m, "Items at least 0")))
       [] f = "len_items_eq0" -> AddInv(m, S, LenC("items", "eq", "0", FreshDesc(m, "Items exactly 0")))
       [] f = "len_items_ge5_le3" ->
@@ -406,6 +420,11 @@ ApplyPat(f, t, m) ==
             LET fn == Fresh(AllTopNames(m), "matches_upper")
                 U(on) == Match(fn, on, "Upper matches") IN
             AddPat(AddUpperInv(AddFn(m, PatFn(fn, "^[a-z]*$")), t, U), "lower", "^.{2,5}$")
+      [] f = "pat_inh_three" ->
+            \* one pattern at the upper declaration, three more added below it
+            LET fn == Fresh(AllTopNames(m), "matches_upper_first")
+                U(on) == Match(fn, on, "Upper matches first") IN
+            AddPat(AddPat(AddPat(AddUpperInv(AddFn(m, PatFn(fn, "^[a-z]*$")), t, U), "lower_a", "^.{2,5}$"), "lower_b", "^[^x]*$"), "lower_c", "^(ab|cd)*$")
       [] f = "pat_on_cprim" ->
             LET fn == Fresh(AllTopNames(m), "matches_name") IN
             AddCPrimInv(AddFn(m, PatFn(fn, "^[A-Z][a-z]*$")), "Name", Match(fn, "self", "Name matches"))
@@ -532,6 +551,11 @@ ApplyStruct(f, t, m) ==
                      D(Class("Left_d", <<"Top_d">>, TRUE, <<Prop("left_value", IntT)>>), "Represent the left.")),
                      D(Class("Right_d", <<"Top_d">>, TRUE, <<Prop("right_value", IntT)>>), "Represent the right.")),
                      D(Class("Bottom_d", <<"Left_d", "Right_d">>, FALSE, <<Prop("bottom_value", IntT)>>), "Represent the bottom."))
+      [] f = "st_child_before_parent" ->
+            AddClass(AddClass(m, Class("Early_child", <<"Late_base">>, FALSE, <<Prop("early_value", StrT)>>)), Class("Late_base", <<>>, TRUE, <<>>))
+      [] f = "st_transp_fn_len_no_args" ->
+            LET fn == Fresh(AllTopNames(m), "is_nothing") IN
+            AddInv(AddFn(m, TranspFn(fn, <<[name |-> "text", type |-> StrT]>>, "len() > 0")), S, Match(fn, "text", FreshDesc(m, "Text is nothing")))
       [] f = "st_abstract_with_inv" -> AddInv(m, "Parent", LenC("text", "le", "100", FreshDesc(m, "Parent text at most 100")))
 
 \* invariant expression shapes; "uses" lists the properties the text mentions (checked by R_InvariantsResolve)
@@ -576,6 +600,7 @@ ApplyExpr(f, t, m) ==
             LET m1 == AddTyped(m, "ratio", Prim("float")) IN
             AddInv(m1, S, Raw("self.ratio >= 0.0 and self.ratio <= 1.5e3", {"ratio"}, FreshDesc(m, "Ratio bounded")))
       [] f = "ex_int_big" -> Inv("self.count < 9223372036854775808", {"count"}, "Count below 2^63")
+      [] f = "ex_len_two_args_cprim" -> AddCPrimInv(m, "Name", Raw("len(self, self) > 0", {}, FreshDesc(m, "Name has a length")))
       [] f = "ex_neg_int" -> Inv("self.count > -5", {"count"}, "Count above -5")
 
 \* identifiers: distinct meta-model names that at least one target maps to the same generated name, or that are
